@@ -14,7 +14,7 @@ Let drift := fun a => vscal tstep (D a).
 
 (* The proofs of this section do not depend on how the source spells its expressions (1/(2 tstep) * (f - b) or (f - b)/(2 tstep), named
    temporaries or not): the generated definitions are unfolded to the coordinates and compared as rational functions. *)
-Ltac vec_field := unfold lnT, norm2, vsum, vpow, vsub, vadd, vscal; cbn [vx vy vz]; field.
+Ltac vec_field := unfold lnT, norm2, vsum, vpow, vmul, vsub, vadd, vscal; cbn [vx vy vz]; field.
 
 (* the argument of the exponential in the acceptance ratio is ln T(x'->x) - ln T(x->x') for the Gaussian of variance tstep about the
    drifted position (so: the squared noise of the reverse move minus that of the forward move, over 2 tstep) *)
@@ -90,23 +90,30 @@ Qed.
 Lemma sqrt_norm2_pos g : 0 < sqrt (norm2 g) -> 0 < norm2 g.
 Proof. intros H. destruct (Rle_lt_dec (norm2 g) 0) as [Hle|Hlt]; [|assumption]. rewrite (sqrt_neg_0 _ Hle) in H. lra. Qed.
 
+(* shape-independent: whichever comparison the source makes is split on, and each branch is compared with the specification coordinate by coordinate *)
+Ltac split_comparisons :=
+  repeat match goal with
+  | |- context [Rlt_dec ?a ?b] => destruct (Rlt_dec a b)
+  | |- context [Rle_dec ?a ?b] => destruct (Rle_dec a b)
+  end.
 Theorem mc_limdrift_spec cutoff g : 0 < cutoff ->
   (sqrt (norm2 g) <= cutoff -> mc_limdrift cutoff g = g) /\
   (cutoff < sqrt (norm2 g) -> mc_limdrift cutoff g = vscal (cutoff / sqrt (norm2 g)) g /\ sqrt (norm2 (mc_limdrift cutoff g)) = cutoff).
 Proof.
-  intros Hc. unfold mc_limdrift. fold (norm2 g).
-  destruct (Rlt_dec cutoff (sqrt (norm2 g))) as [Hgt|Hle].
-  - assert (Hn : 0 < sqrt (norm2 g)) by lra.
-    assert (E : vscal (/ sqrt (norm2 g)) (vscal cutoff g) = vscal (cutoff / sqrt (norm2 g)) g).
-    { unfold vscal; cbn. f_equal; field; lra. }
-    assert (N : sqrt (norm2 (vscal (cutoff / sqrt (norm2 g)) g)) = cutoff).
-    { rewrite norm2_vscal.
-      replace (cutoff / sqrt (norm2 g) * (cutoff / sqrt (norm2 g)) * norm2 g) with (cutoff * cutoff * (norm2 g / (sqrt (norm2 g) * sqrt (norm2 g)))) by (field; lra).
-      rewrite sqrt_sqrt by (apply Rlt_le, sqrt_norm2_pos; assumption).
-      replace (norm2 g / norm2 g) with 1 by (field; apply Rgt_not_eq, sqrt_norm2_pos; assumption).
-      rewrite Rmult_1_r. apply sqrt_square. lra. }
-    split; [intros; lra|]. intros _. split; [exact E|rewrite E; exact N].
-  - split; [reflexivity|intros; lra].
+  intros Hc.
+  assert (N : 0 < sqrt (norm2 g) -> sqrt (norm2 (vscal (cutoff / sqrt (norm2 g)) g)) = cutoff).
+  { intros Hn. rewrite norm2_vscal.
+    replace (cutoff / sqrt (norm2 g) * (cutoff / sqrt (norm2 g)) * norm2 g) with (cutoff * cutoff * (norm2 g / (sqrt (norm2 g) * sqrt (norm2 g)))) by (field; lra).
+    rewrite sqrt_sqrt by (apply Rlt_le, sqrt_norm2_pos; assumption).
+    replace (norm2 g / norm2 g) with 1 by (field; apply Rgt_not_eq, sqrt_norm2_pos; assumption).
+    rewrite Rmult_1_r. apply sqrt_square. lra. }
+  assert (Big : cutoff < sqrt (norm2 g) -> mc_limdrift cutoff g = vscal (cutoff / sqrt (norm2 g)) g).
+  { intros Hgt. unfold mc_limdrift. rewrite ?vsum_vmul_self. fold (norm2 g). split_comparisons; try lra.
+    apply vec3_eq; unfold vscal, vmul; cbn [vx vy vz]; field; lra. }
+  assert (Small : sqrt (norm2 g) <= cutoff -> mc_limdrift cutoff g = g).
+  { intros Hle. unfold mc_limdrift. rewrite ?vsum_vmul_self. fold (norm2 g). split_comparisons; try lra.
+    apply vec3_eq; unfold vscal, vmul; cbn [vx vy vz]; try reflexivity; field. }
+  split; [exact Small|]. intros Hgt. split; [exact (Big Hgt)|]. rewrite (Big Hgt). apply N. lra.
 Qed.
 
 (* ---------- the multi-wave-function sampler ---------- *)
